@@ -4,10 +4,26 @@ import json
 import os
 
 import common as C
+import pygal_specs
 
 BASELINE_CMD = ("cd /repo && /venv/bin/python -m pytest -ra -q -p no:cacheprovider --timeout=900 "
                 "--continue-on-collection-errors")
 NOT_BUILT = "check not built yet in this revision (DESIGN.md section 10 gives the build order); no claim is made"
+
+
+def source_tie(pid):
+    """the functions of /repo whose source text is re-translated into Gallina on every run of this property's check"""
+    fns = []
+    for key, spec in pygal_specs.SPECS.items():
+        if pid in spec.get("proofs", {}):
+            fns.append("%s [%s] (unit %s, coq/srcproofs/%s.v)" % (spec["file"], ", ".join(f["name"] for f in spec["functions"]),
+                                                              key, spec["proofs"][pid]))
+    if not fns:
+        return ""
+    return (" + source tie by translation: on every run " + "; ".join(fns) + " re-translated from the current source text "
+            "into Gallina by a fail-closed translator (harness/pygal.py, pygal_m.py) and the committed proofs that the "
+            "generated definition equals the model (and the property theorems over it) re-checked by coqc; a function that "
+            "has left the translatable subset makes the unit skipped for that run (NOTE line), not broken")
 
 
 def write():
@@ -30,7 +46,7 @@ def write():
             engine="coq-proof+correspondence",
             level_claimed=dict(category="proof", text=m["level_text"], design_ref=m["design_ref"]),
             level_note=m["level_note"],
-            technique=m["technique"],
+            technique=m["technique"] + source_tie(pid),
         ))
     man = dict(
         version=1,
@@ -42,7 +58,9 @@ def write():
                       serves_properties=[c["property_id"] for c in checks],
                       kind_free_text="Rocq/Coq 8.16.1 theorems over hand-written Gallina models (coq/theories, coq/proofs, "
                       "coq/props) + a correspondence check that runs the model (vm_compute inside coqc) and the current "
-                      "/repo sources on the same generated inputs / traces / histories on every run")],
+                      "/repo sources on the same generated inputs / traces / histories on every run; for twelve "
+                      "translation units (harness/pygal_specs.py) additionally a source-to-Gallina translation of the "
+                      "current source text with committed equality proofs re-checked on every run (coq/srcproofs)")],
         checks=checks,
         notes="See DESIGN.md. known_findings.json lists genuine defects that are recorded rather than repaired.",
         not_applicable=na,
